@@ -493,6 +493,17 @@ def execute(h):
             violate('money_lt', 'value', step, pair=[a, b],
                     expected=list(exp), observed=list(o),
                     model_stack=list(mstack))
+        for opn, fn in (('>', lambda x, y: x > y),
+                        ('<=', lambda x, y: x <= y),
+                        ('>=', lambda x, y: x >= y)):
+            o = observe(lambda: fn(moneys[a], moneys[b]))
+            vec.append(o)
+            exp = ('ok', fn(moneys[a].amount, _frac(e[1]))) \
+                if e[0] == 'ok' else e
+            if o != exp and not skip_ops:
+                violate('money_cmp', 'value', step, pair=[a, b], op=opn,
+                        expected=list(exp), observed=list(o),
+                        model_stack=list(mstack))
         o = observe(lambda: moneys[a] == moneys[b])
         vec.append(o)
         if e[0] == 'ok':
